@@ -439,7 +439,7 @@ def explore(ctx, n_nets, n_numba, with_corr=True):
         ctx.count("mode_" + mode)
         ctx.count("kind_" + spec.get("kind", "?"))
         ctx.count("numba_" + str(numba))
-        if cap and with_corr and len(captured) < (40 if ctx.quick else 200) and len(cap[0][0]) <= 40:
+        if cap and with_corr and len(captured) < (32 if ctx.quick else 200) and len(cap[0][0]) <= 40:
             captured.append((spec, net, cap[0][0], cap[0][1], numba))
         report_unexpected(ctx, spec, mode, numba, r)
         if r != "ok":
@@ -488,9 +488,17 @@ def run(ctx):
             ctx.gen(name, fn())
         except Exception as e:  # noqa: BLE001
             ctx.broken("translator", name, repr(e))
-    proved = ctx.prove("C10")
-    n_nets, n_numba = (56, 8) if ctx.quick else (400, 120)
-    captured = explore(ctx, n_nets, n_numba)
+    # the Coq build (which may wait for the shared build lock) runs while the monitors run
+    import threading
+    res = {}
+    th = threading.Thread(target=lambda: res.__setitem__("proved", ctx.prove("C10")))
+    th.start()
+    n_nets, n_numba = (50, 6) if ctx.quick else (400, 120)
+    try:
+        captured = explore(ctx, n_nets, n_numba)
+    finally:
+        th.join()
+    proved = res.get("proved", False)
     if captured:
         correspondence(ctx, captured)
     else:
